@@ -43,7 +43,7 @@ def roots(o: Origin) -> Set[str]:
         return {"<self>"}
     if k in ("elem",):
         return roots(o[1])
-    if k == "attr":
+    if k in ("attr", "part"):
         return roots(o[1])
     if k == "union":
         out: Set[str] = set()
@@ -58,12 +58,25 @@ def roots(o: Origin) -> Set[str]:
     return set()
 
 
+def partial_of(o: Origin) -> Optional[str]:
+    """The slice text if the origin is only a part of a sequence field (`xs[:-1]`), else None."""
+    k = o[0]
+    if k == "part":
+        return o[2]
+    if k in ("elem", "attr"):
+        return partial_of(o[1])
+    if k == "union":
+        ps = [partial_of(x) for x in o[1]]
+        return ps[0] if ps and all(p is not None for p in ps) else None
+    return None
+
+
 def through_attr(o: Origin) -> List[Tuple[Origin, str]]:
     """(base origin, attribute) pairs for origins of the form base.attr where base is not self."""
     k = o[0]
     if k == "attr":
         return [(o[1], o[2])] + through_attr(o[1])
-    if k == "elem":
+    if k in ("elem", "part"):
         return through_attr(o[1])
     if k == "union":
         out = []
@@ -119,7 +132,13 @@ class MethodWalker:
             if base == OTHER:
                 return OTHER
             if isinstance(n.slice, ast.Slice):
-                return base
+                # a proper slice is a part of the sequence (x[:] is all of it)
+                if n.slice.lower is None and n.slice.upper is None:
+                    return base
+                return ("part", base, unparse(n.slice))
+            if isinstance(n.slice, ast.Constant) and isinstance(n.slice.value, int) or (isinstance(n.slice, ast.UnaryOp) and isinstance(n.slice.operand, ast.Constant)):
+                # one fixed position of the sequence
+                return ("elem", ("part", base, unparse(n.slice)))
             return ("elem", base)
         if isinstance(n, (ast.List, ast.Tuple)):
             parts = []
